@@ -6,7 +6,7 @@ import json
 
 from .. import certchain, core, tlc, wdpool
 
-ACTIONS = ("DecideBy", "DecideLink", "DecideRoot", "PEnter", "PStep", "VEnter", "VBuild", "VCheck")
+ACTIONS = ("DecideBy", "DecideLink", "DecideRoot", "PEnter", "PStep", "VEnter", "VBuild", "VCheck", "NextOp")
 KINDS = ("sigOtherKey", "sigFlip", "sigSwap", "msgFlipKey", "msgFlipOther", "keySubst", "tweakFlip",
          "tweakRemove", "tweakAdd", "reparent", "wrongRoot")
 
@@ -56,7 +56,7 @@ def tsig(clause, t):
 
 def run_plans(ctx, plans, nproc):
     jobs = [(p, ctx.scratch) for p in plans]
-    results = wdpool.run_jobs(certchain.execute, jobs, nproc=nproc, budget=2.0, retry_budget=10.0, max_hangs=6)
+    results = wdpool.run_jobs(certchain.execute_any, jobs, nproc=nproc, budget=2.0, retry_budget=10.0, max_hangs=6)
     traces, extras = [], []
     for p, r in zip(plans, results):
         if r["status"] == "skipped":
@@ -75,6 +75,11 @@ def run_plans(ctx, plans, nproc):
         if also is not None:        # the answer changed after the object had been asked about another root
             also["plan"] = dict(p, requery=True)
             extras.append(also)
+        for k, m in enumerate(t.pop("more", None) or []):
+            # further observations of the same plan: later validations of a history, or an answer that
+            # changed when the same question was asked again
+            m["plan"] = dict(p, observation=k + 2, step=m.get("step", "asked again"))
+            extras.append(m)
     # appended after the plan-aligned traces so that positions keep matching the plans
     return traces + extras, results.stats
 
@@ -107,7 +112,11 @@ def run(ctx):
     nproc = ctx.pick(4, 8)
     # 1. design checks -----------------------------------------------------------------------
     # quick: the 1-target configuration is checked (same constants, all invariants) by the generation run
-    runs = ctx.pick([("MCL_CertChain2.cfg", "MCL_CertChain2: <=2 targets, <=1 corruption (reduced kinds), <=1 over-long message; "
+    # (quick: the history configuration is checked, with all invariants and Terminates, by its generation run)
+    hist = ctx.pick([],
+                    [("MCH_CertChain.cfg", "MCH_CertChain: histories - a loaded object, then <=3 further operations"),
+                     ("MCHB_CertChain.cfg", "MCHB_CertChain: histories - object built step by step, <=4 operations")])
+    runs = hist + ctx.pick([("MCL_CertChain2.cfg", "MCL_CertChain2: <=2 targets, <=1 corruption (reduced kinds), <=1 over-long message; "
                                             "invariants + Terminates under WF (no state constraint)")],
                     [("MC_CertChain.cfg", "MC_CertChain: 1 target, <=1 corruption (all kinds), <=1 certifier with a shaped message"),
                      ("MC_CertChain2.cfg", "MC_CertChain2: <=2 targets, <=1 corruption (reduced kinds), <=1 over-long message"),
@@ -123,7 +132,7 @@ def run(ctx):
         res.add_tlc(r, label)
         for a, c in r.action_counts().items():
             counts[a] = max(counts.get(a, 0), c)
-    never = [a for a in ACTIONS if counts.get(a, 0) == 0]
+    never = [a for a in ACTIONS if counts.get(a, 0) == 0 and not (ctx.quick and a == "NextOp")]
     if never:
         raise core.MachineryError("vacuity: actions never taken: %s" % never)
     res.coverage["uncovered_actions"] = never
@@ -134,7 +143,7 @@ def run(ctx):
         res.add_tlc(rl, "Live_CertChain: Terminates under WF, no state constraint")
     negs = []
     for cfg, inv in (("Neg_CertChain.cfg", "NeverValid"), ("Neg2_CertChain.cfg", "NeverInvalidBelowTop"),
-                     ("Neg3_CertChain.cfg", "NeverRefusedForShape")):
+                     ("Neg3_CertChain.cfg", "NeverRefusedForShape"), ("Neg4_CertChain.cfg", "NeverValidTwice")):
         rn = tlc.run("CertChain", cfg, workers=2)
         if inv not in rn.violated:
             raise core.MachineryError("vacuity guard: %s is not violated by the model" % inv)
@@ -171,7 +180,7 @@ def run(ctx):
         raise core.MachineryError("vacuity: message shapes never generated on a certifier: %s" % missing_shapes)
     res.coverage["message_shape_classes_generated"] = sorted(shapes_seen)
     # quick: every class at least once + a seeded sample; thorough: everything
-    budget = ctx.pick(1300, 80000)
+    budget = ctx.pick(1000, 60000)
     chosen = []
     for c in sorted(classes):
         chosen.append(ctx.rng.choice(classes[c]))
@@ -190,7 +199,7 @@ def run(ctx):
     res.coverage["behaviours_replayed"] = len(chosen)
     res.coverage["certificates_from_behaviours"] = n_model
     # 3. binding B: random certificates, byte sweep ----------------------------------------------
-    n_rand = ctx.pick(600, 20000)
+    n_rand = ctx.pick(400, 15000)
     plans += [certchain.random_plan(ctx.rng) for _ in range(n_rand)]
     sweep = certchain.sweep_plans(ctx.rng, ctx.pick(1, 8))
     if ctx.quick:
@@ -198,6 +207,27 @@ def run(ctx):
     plans += sweep
     spelt = certchain.spelling_plans(ctx.rng)
     plans += spelt
+    # histories: several operations on one object (model behaviours, random, built step by step), and two
+    # objects validated alternately
+    hb = []
+    for cfg, label in ctx.pick([("GenH_CertChain.cfg", "GenH_CertChain (histories: a loaded object, then <=2 further "
+                                                        "operations, 3 names; all invariants + Terminates)")],
+                               [("GenH_CertChain.cfg", "GenH_CertChain (histories: loaded, <=2 operations, 3 names)"),
+                                ("GenHB_CertChain.cfg", "GenHB_CertChain (histories: built, <=4 operations, 3 names)")]):
+        bs, rg = tlc.generate("GenCertChain", cfg)
+        res.add_tlc(rg, label)
+        hb += bs
+    ctx.rng.shuffle(hb)
+    hplans = [certchain.history_plan_from_behaviour(b, ctx.rng) for b in hb[:ctx.pick(450, 10000)]]
+    hplans += [certchain.random_history_plan(ctx.rng) for _ in range(ctx.pick(150, 3000))]
+    hplans += [certchain.built_history_plan(ctx.rng) for _ in range(ctx.pick(80, 1500))]
+    hplans += [certchain.pair_plan(ctx.rng) for _ in range(ctx.pick(50, 800))]
+    plans += hplans
+    if not any(e["k"] == "op:validate" for b in hb for e in (b["log"] or [])) or \
+            not any(e["k"] == "op:addel" for b in hb for e in (b["log"] or [])):
+        raise core.MachineryError("vacuity: the history configuration generated no re-validation / no add_element")
+    res.coverage["history_behaviours_generated"] = len(hb)
+    res.coverage["history_plans"] = len(hplans)
     res.coverage["random_certificates"] = n_rand
     res.coverage["byte_sweep_certificates"] = len(sweep)
     res.coverage["spelling_certificates"] = len(spelt)
